@@ -1,10 +1,15 @@
 //! Single-game protocols (C07): Mindustry, Savage 2, FFOW, The Ship, Battalion 1944, Eco.
 use crate::canon::*;
 use crate::net::*;
-use gamedig::games::mindustry;
+use gamedig::games::{mindustry, savage2};
 
 pub fn entries() -> Vec<(&'static str, crate::EntryFn)> {
-    vec![("mindustry", entry_mindustry), ("mindustry_dp", entry_mindustry_dp)]
+    vec![
+        ("mindustry", entry_mindustry),
+        ("mindustry_dp", entry_mindustry_dp),
+        ("savage2", entry_savage2),
+        ("savage2_dp", entry_savage2_dp),
+    ]
 }
 
 fn show_mindustry(d: &mindustry::types::ServerData) -> String {
@@ -49,3 +54,41 @@ fn mindustry_with(args: &[&str], default_port: bool) -> String {
 
 fn entry_mindustry(args: &[&str]) -> String { mindustry_with(args, false) }
 fn entry_mindustry_dp(args: &[&str]) -> String { mindustry_with(args, true) }
+
+// ---------------------------------------------------------------- Savage 2
+
+fn show_savage2(r: &savage2::Response) -> String {
+    format!(
+        "S2{{{}}}",
+        [
+            show_str(&r.name),
+            r.players_online.to_string(),
+            r.players_maximum.to_string(),
+            r.players_minimum.to_string(),
+            show_str(&r.time),
+            show_str(&r.map),
+            show_str(&r.next_map),
+            show_str(&r.location),
+            show_str(&r.game_mode),
+            show_str(&r.protocol_version),
+            r.level_minimum.to_string(),
+        ]
+        .join(";")
+    )
+}
+
+fn savage2_with(args: &[&str], default_port: bool) -> String {
+    if args.len() < 3 {
+        return "bad-case".into();
+    }
+    let (Some(port), Some(r), Some(script)) =
+        (args[0].parse::<u16>().ok(), args[1].parse::<usize>().ok(), parse_net_args(&args[2 ..]))
+    else {
+        return "bad-case".into();
+    };
+    let port = if default_port { None } else { Some(port) };
+    run_q(script, || savage2::query_with_timeout(&IP, port, timeout(r)), show_savage2)
+}
+
+fn entry_savage2(args: &[&str]) -> String { savage2_with(args, false) }
+fn entry_savage2_dp(args: &[&str]) -> String { savage2_with(args, true) }
